@@ -419,4 +419,25 @@ def run(ctx, prog):
         asg = [(i_, a) for i_, a in asg if i_ in arm]
         ctx.inst('C02.R6', rec.short, 'replay of UpdateMetadata installs the logged map as is (full replacement)', bool(um_edges) and bool(asg) and all(a == 'var:entry→WalEntry.metadata' for _, a in asg),
                  'assignments to the document\'s metadata during replay: %s' % sorted(set(a for _, a in asg)))
+    # ------------------------------------------------------------------ R7 re-normalising a stored vector is the identity
+    ctx.rule('C02.R7', 'the vector normaliser is applied once on insert (its output is logged and stored) and AGAIN to every recovered vector: bit-identity after restart '
+                       'needs it to leave its own output alone — the in-range test of the squared norm must send EVERY normalising metric to the untouched return, so the '
+                       'component writes are reachable only through the out-of-range edge (whether a scaled vector lands in range is arithmetic, not decided)')
+    nz = ctx.body('C02.R7', 'hnsw_backend::normalize_in_place_if_needed')
+    if nz is not None:
+        on = flow.Origin(nz)
+        callers7 = sorted(set(c.body.name for c in prog.callers_of('hnsw_backend::normalize_in_place_if_needed')))
+        ctx.inst('C02.R7', nz.short, 'applied on the write path and again on recovery', 'insert' in callers7 and any('recover' in x for x in callers7), 'callers: %s' % callers7)
+        out_edges = [(i_, tg) for i_, blk in enumerate(nz.blocks) if blk['t']['k'] == 'switch' and i_ in nz.live_blocks() for tg, p_ in flow.switch_edge_predicates(nz, i_, on)
+                     if re.match(r'^!bool\[RangeInclusive::contains\(RangeInclusive::new\(.*NORMALIZATION_NORM_SQ_MIN, .*NORMALIZATION_NORM_SQ_MAX\), simd::sum_squares_f32\(arg:embedding\)\)\]$', p_)]
+        writes = [i_ for i_, blk in enumerate(nz.blocks) if i_ in nz.live_blocks() for st in blk['s'] if 'rv' in st and st['pl'].get('p') == ['*'] and 'f32' in nz.locals[st['pl']['l']]]
+        r7 = nz.reach([0], avoid_edges=out_edges) | {0}
+        leak = [w for w in writes if w in r7]
+        ctx.inst('C02.R7', nz.short, 'components are rewritten only when the squared norm is out of range', bool(out_edges) and bool(writes) and not leak,
+                 ('the write at %s is reachable with the norm in range: a stored (already normalised) vector is rescaled again on recovery and comes back with different bits'
+                  % nz.loc_of(leak[0])) if leak else '%d component write(s), all behind the out-of-range edge' % len(writes))
+        # the range constants used by the normaliser and by the index's acceptance test are the same items (an accepted vector is one the normaliser leaves alone)
+        rng = sorted(set(re.findall(r'(\w+::NORMALIZATION_NORM_SQ_M(?:IN|AX))', ' '.join(p_ for i_, blk in enumerate(nz.blocks) if blk['t']['k'] == 'switch'
+                                                                                              for tg, p_ in flow.switch_edge_predicates(nz, i_, on)))))
+        ctx.inst('C02.R7', nz.short, 'range bounds are the named constants', len(rng) == 2, 'bounds: %s' % rng)
     ctx.stat('functions_analysed', len(set(i['key'].split(' | ')[1] for i in ctx.instances)))
